@@ -24,8 +24,15 @@ def realise(w, kind, detail):
         magic = int(parts[0])
         got = [w.r("get_opcode_for_magic", magic=magic, filename=f) for f in ("x.pyc", "x.pypy38.pyc")]
         bad = any(isinstance(g, dict) for g in got)
-        return bad, {"call": "get_opcode(magic_int2tuple(%d), is_pypy(...))" % magic, "actual": got,
-                     "expected": "an opcode table"}
+        # a file is_pypy() calls PyPy must get a PyPy table
+        from_tables = [r for r in getattr(realise, "accepted", []) if r["magic"] == magic]
+        for r in from_tables:
+            for k in ("plain", "pypy38name"):
+                if r.get("is_pypy_" + k) and r.get("opc_" + k) and "pypy" not in r["opc_" + k]:
+                    bad = True
+        return bad, {"call": "get_opcode(magic_int2tuple(%d), is_pypy(magic, name)) for name in ('x.pyc', 'x.pypy38.pyc')" % magic,
+                     "actual": got, "table_rows": from_tables[:1],
+                     "expected": "an opcode table, and a PyPy table whenever is_pypy() says PyPy"}
     if kind in ("release", "installed"):
         name = parts[0]
         got = w.r("magics_lookup", name=name)
@@ -38,6 +45,7 @@ def realise(w, kind, detail):
 
 def run(ctx):
     rep, drv = ctx.rep, ctx.driver
+    realise.accepted = ctx.tables["magics"]["accepted"]
     rng = random.Random(ctx.seed)
     w = Worker()
     try:
